@@ -312,5 +312,42 @@ func (s *Sim) CheckReload(x int) error {
 			"revocations were received", name, len(pkgs),
 			m.RevsDelivered[y])
 	}
+	for i, pkg := range pkgs {
+		var want *channeldb.FwdPkg
+		for _, w := range s.FwdPkgs[x] {
+			if w.Height == pkg.Height {
+				want = w
+			}
+		}
+		if want == nil {
+			return violationf("%s reloaded: forwarding package #%d "+
+				"for height %d was never handed out", name, i, pkg.Height)
+		}
+		if err := cmpPkg(pkg.Adds, want.Adds); err != nil {
+			return violationf("%s reloaded: forwarding package h=%d "+
+				"adds: %v", name, pkg.Height, err)
+		}
+		if err := cmpPkg(pkg.SettleFails, want.SettleFails); err != nil {
+			return violationf("%s reloaded: forwarding package h=%d "+
+				"settle/fails: %v", name, pkg.Height, err)
+		}
+	}
+	return nil
+}
+
+func cmpPkg(got, want []channeldb.LogUpdate) error {
+	if len(got) != len(want) {
+		return fmt.Errorf("%d updates on disk, %d handed out", len(got),
+			len(want))
+	}
+	for i := range got {
+		if err := sameUpdate(got[i].UpdateMsg, want[i].UpdateMsg); err != nil {
+			return fmt.Errorf("update %d: %v", i, err)
+		}
+		if got[i].LogIndex != want[i].LogIndex {
+			return fmt.Errorf("update %d: log index %d on disk, %d "+
+				"handed out", i, got[i].LogIndex, want[i].LogIndex)
+		}
+	}
 	return nil
 }
